@@ -96,6 +96,19 @@ def _only_called_from(W, g_short, allowed, depth=0):
     return bool(callers) and all(c in allowed or _only_called_from(W, c, allowed, depth + 1) for c in callers)
 
 
+def _still_writes(W, g_short, st, fld):
+    fw = field_writers(W)
+    ws = fw.get((st, fld), set())
+    fs = [f for f in W.fns() if short(f.path) == g_short and f.kind != 'closure']
+    if not fs:
+        return True     # the function itself is gone: an anchor problem, reported by the rules that name it
+    for f in fs:
+        for h in W.cg.may_call_closure(f):
+            if short(h.parent if h.kind == 'closure' and h.parent else h.path) in ws:
+                return True
+    return False
+
+
 def state_rule_for(pid):
     def rule(W, ob):
         tab = _tab('state.json')['structs']
@@ -117,6 +130,11 @@ def state_rule_for(pid):
                 extra = sorted(set(ws) - set(known[fld]))
                 # a helper that only reviewed writers call (an extracted store) is not a new writer
                 extra = [g for g in extra if not _only_called_from(W, g, set(known[fld]))]
+                # ... and a reviewed writer that no longer writes it (directly or through anything it calls) is a store that was deleted
+                lost = [g for g in known[fld] if g not in ws and not _still_writes(W, g, st, fld)]
+                if lost:
+                    ob.fail('state|%s.%s|lost-writer' % (st, fld), '%s no longer writes %s.%s (neither itself nor through a function it calls): an update, reset or re-arm of that '
+                            'field was removed' % (', '.join(lost), st, fld), None)
                 ob.check(not extra, 'state|%s.%s|new-writer' % (st, fld), '%s.%s is written only by its %d reviewed writer(s)' % (st, fld, len(known[fld])),
                          '%s.%s is now also written by %s (reviewed writers: %s)' % (st, fld, ', '.join(extra), ', '.join(known[fld]) or 'constructor only'), None)
         ob.require_count(n, 3, 'fields in the state inventory for %s' % pid)
@@ -142,3 +160,95 @@ def error_rule(W, ob):
                      '%s can now fail with GgrsError::%s, an error exit the inventory does not know (tables/error_exits.json): what the session has already done when it is taken, '
                      'and what becomes of the requests collected so far, has not been reviewed' % (fn, v), None)
     ob.require_count(n, 20, 'error exits')
+
+
+# ---------------------------------------------------------------------------------------------------------------------------------------
+# call inventory: calls of functions that write state
+# ---------------------------------------------------------------------------------------------------------------------------------------
+CALLER_PROPS = dict(STRUCTS)
+CALLER_PROPS.update({'compression': ['C14', 'C08'], 'GameStateCell': ['C02', 'C13']})
+
+
+def compute_edges(W):
+    from .world import Effects
+    E = Effects(W)
+    edges = set()
+    for f in W.fns():
+        if f.derived or 'tests' in f.path:
+            continue
+        host = f.parent if f.kind == 'closure' and f.parent else f.path
+        for t in f.calls():
+            for g in W.cg.targets(t.callee):
+                if g.derived or g.kind == 'closure' or g.path == host:
+                    continue
+                if E.of(g):
+                    edges.add((short(host), short(g.path)))
+    return sorted(edges)
+
+
+def call_rule_for(pid):
+    """every reviewed call of a state-writing function is still made (directly or through helpers): a call that was deleted as 'redundant' is reported"""
+    def rule(W, ob):
+        tab = _tab('call_edges.json')['edges']
+        by_short = {}
+        for f in W.fns():
+            if f.kind != 'closure' and not f.derived:
+                by_short.setdefault(short(f.path), []).append(f)
+        n = 0
+        for x, y in tab:
+            if pid not in CALLER_PROPS.get(x.split('::')[0], []):
+                continue
+            fx, fy = by_short.get(x), by_short.get(y)
+            if not fx or not fy:
+                ob.info('call inventory: %s -> %s skipped (%s no longer exists; the rules that name it report that)' % (x, y, x if not fx else y))
+                continue
+            n += 1
+            reach = set()
+            for f in fx:
+                reach |= {short(h.parent if h.kind == 'closure' and h.parent else h.path) for h in W.cg.may_call_closure(f)}
+                for c in W.closures_of(f):
+                    reach |= {short(h.parent if h.kind == 'closure' and h.parent else h.path) for h in W.cg.may_call_closure(c)}
+            ob.check(y in reach, 'call|%s|%s' % (x, y), '%s still calls %s' % (x, y),
+                     '%s no longer calls %s (neither directly nor through a helper): a call of a function that writes state was removed' % (x, y), where(fx[0]))
+        ob.require_count(n, 1, 'reviewed calls of state-writing functions for %s' % pid)
+        debug_purity(W, ob)
+    return rule
+
+
+DEBUG_ONLY = ('debug_assert', 'debug_assert_eq', 'debug_assert_ne', 'trace', 'debug', 'info', 'warn', 'error', 'event')
+
+
+def debug_purity(W, ob):
+    """code that exists only in some builds -- the arguments of debug_assert!* (compiled out without debug assertions) and of the tracing macros (evaluated only
+    when a subscriber enables the level) -- changes no state: otherwise the tests (debug build, no subscriber) and a release build with logging run different programs"""
+    from .world import Effects
+    E = Effects(W)
+    n = 0
+    for f in W.fns():
+        if f.derived:
+            continue
+        in_macro_closure = f.kind == 'closure' and any(any(m.split('::')[-1] in DEBUG_ONLY for m in t.macros) for p2 in W.fns() if p2.path == f.parent for t in p2.calls()
+                                                       if W.cg.targets(t.callee) and f in W.cg.targets(t.callee))
+        # the region guarded by `if cfg!(debug_assertions)` of a debug_assert!*: macro ARGUMENTS keep their own spans, so the region is found on the CFG
+        region = set()
+        cfgf = cfg_of(f)
+        for b in f.blocks:
+            tt = b.term
+            if tt.k == 'switch' and any(m.split('::')[-1].startswith('debug_assert') or m.split('::')[-1] in DEBUG_ONLY for m in tt.macros):
+                tgt = tt.otherwise
+                region |= {x.id for x in f.blocks if not x.cleanup and x.id in cfgf.reach and cfgf.dominates(tgt, x.id)}
+        for t in f.calls():
+            inside = in_macro_closure or t.bb in region or any(m.split('::')[-1] in DEBUG_ONLY for m in t.macros)
+            if not inside:
+                continue
+            n += 1
+            tg = [g for g in W.cg.targets(t.callee) if g.kind != 'closure']
+            eff = [g for g in tg if any(not e.startswith('local') for e in E.of(g))]
+            muts = [i for i, ty in enumerate(t.arg_tys or []) if ty.startswith('&mut ') and t.args[i].is_place() and
+                    W.ctx(f).ap_carry(t.args[i].place).root[0] in ('arg', 'upvar')]
+            host = f.parent if f.kind == 'closure' and f.parent else f.path
+            if (eff and muts) or (muts and not tg and (t.callee.crate or '') not in ('tracing', 'tracing_core', 'core', 'std', 'alloc')):
+                ob.fail('debug-only-effect|%s|%s' % (short(host), short(t.callee.best or '?')),
+                        '%s calls %s inside a debug_assert!/tracing macro: the call changes state, but it is compiled out (or not evaluated) in builds without debug assertions / '
+                        'without a subscriber at that level -- debug and release builds run different programs' % (short(host), short(t.callee.best or '?')), where(f, t.line))
+    ob.require_count(n, 15, 'calls inside debug-only macros')
